@@ -82,10 +82,12 @@ func (s *socket) RecvMsg() (*protocol.Message, error) {
 	// socket.  Later we can look at moving this to priority queues
 	// based on socket pipes.
 
+	// The deadline covers the whole call: it is armed once, not again
+	// each time a queue resize makes us go round the loop.
+	timeQ := nilQ
 	for {
 		s.Lock()
-		timeQ := nilQ
-		if s.recvExpire > 0 {
+		if timeQ == nilQ && s.recvExpire > 0 {
 			timeQ = time.After(s.recvExpire)
 		}
 		recvQ := s.recvQ
